@@ -643,6 +643,9 @@ def cases(tier, seed):
                 pcombos.append((pr, mk, dg))
     for pr in PRIORS:
         pcombos.append((pr, "userlik", "default"))
+    for mk in MODELS[:5]:
+        for dg in ("default", "cont1d", "mapped_grad_exp"):
+            pcombos.append(("hier_gaussian", mk, dg))
     preps = 2 if quick else 6
     for pr, mk, dg in pcombos:
         for r in range(preps):
@@ -651,7 +654,7 @@ def cases(tier, seed):
     # --- multiple-likelihood posteriors
     for r in range(60 if quick else 1500):
         nl = R.choice([2, 2, 3])
-        out.append({"kind": "mlp", "models": [R.choice(MODELS[:5]) for _ in range(nl)],
+        out.append({"kind": "mlp", "ctor": ("joint", "direct", "direct_user", "direct_user")[r % 4], "models": [R.choice(MODELS[:5]) for _ in range(nl)],
                     "datas": [R.choice(POST_DATA) for _ in range(nl)],
                     "prior": R.choice(("gaussian_cov", "gaussian_prec", "gmrf", "cmrf", "cauchy", "smoothedlaplace", "laplace")),
                     "dgeom": R.choice(("default", "cont1d", "mapped_grad_exp", "custom_grad", "kl")), "rep": r, "s": R.randrange(10 ** 9)})
@@ -1060,6 +1063,8 @@ def _run_post(case, ctx, mon, rs):
     if case["dgeom"].startswith("image2d") and case["prior"] in ("gmrf", "cmrf", "lmrf"):
         n = 9
     m = int(rs.choice([2, 3, 5]))
+    if case["prior"] == "hier_gaussian":
+        return _run_hier(case, ctx, mon, rs, pr, n, m)
     if case["model"] == "userlik":
         L, model, x_true, is_ln = _user_likelihood(n, m, rs), None, rs.standard_normal(n), False
     else:
@@ -1092,10 +1097,34 @@ def _run_post(case, ctx, mon, rs):
         pr.call(P, bad, outside=True, chain=True, extra={"point": "outside"})
 
 
+def _run_hier(case, ctx, mon, rs, pr, n, m):
+    """Posterior of x obtained by conditioning a hierarchical joint p(s) p(x|s) p(y|x,s) on y and on the hyper-parameter s."""
+    import cuqi
+    D = cuqi.distribution
+    geom, fs = _geom(case["dgeom"], n)
+    def build():
+        model = _model(case["model"], geom, fs, m, rs)
+        c1, c2 = float(rs.uniform(0.5, 3)), float(rs.uniform(0.2, 2))
+        mu = rs.standard_normal(n)
+        s = D.Gamma(2.0, 1.0, name="s")
+        x = D.Gaussian(mu, cov=lambda s: c1 / s, name="x")
+        y = D.Gaussian(model, cov=lambda s: c2 / s, name="y")
+        x_true = _x_for(case["dgeom"], n, rs)
+        data = np.asarray(model.forward(x_true), dtype=float).reshape(-1) + 0.3 * rs.standard_normal(m)
+        return D.JointDistribution(s, x, y)(y=data, s=float(rs.uniform(0.5, 4))), x_true
+    k, res = core.outcome(build)
+    if k != "value":
+        ctx.refused("build", res); ctx.count("build_refused"); return
+    P, x_true = res
+    for x in (x_true + 0.3 * rs.standard_normal(n), _x_for(case["dgeom"], n, rs)):
+        pr.call(P, x, chain=True, extra={"ctor": "hierarchical"})
+    _fd_cycle(pr, P, x_true, rs, chain=True, n_eps=1, extra={"ctor": "hierarchical"})
+
+
 def _run_mlp(case, ctx, mon, rs):
     import cuqi
     D = cuqi.distribution
-    cfg = _cfg(case); cfg["n_lik"] = len(case["models"])
+    cfg = _cfg(case); cfg["n_lik"] = len(case["models"]); cfg["ctor"] = case.get("ctor", "joint")
     pr = Probe(ctx, mon, cfg)
     n = int(rs.choice([3, 4, 5]))
     geom, fs = _geom(case["dgeom"], n)
@@ -1111,8 +1140,18 @@ def _run_mlp(case, ctx, mon, rs):
             datas[f"y{i}"] = np.exp(d) if is_ln else d
             ys.append(y)
         prior, _, refuses = _prior(case["prior"], n, case["dgeom"], rs)
-        J = D.JointDistribution(prior, *ys)
-        return J(**datas), x_true, refuses
+        if case.get("ctor", "joint") == "joint":
+            J = D.JointDistribution(prior, *ys)
+            return J(**datas), x_true, refuses
+        # built directly from likelihood objects; optionally with user-defined likelihood terms in between
+        dens = [y(**{y.name: datas[y.name]}) for y in ys]
+        if case["ctor"] == "direct_user":
+            for j in range(int(rs.choice([1, 2]))):
+                u = _user_likelihood(n, int(rs.choice([2, 3])), rs)
+                u._name = f"u{j}"
+                dens.insert(int(rs.randint(len(dens) + 1)), u)
+        dens.insert(int(rs.randint(len(dens) + 1)), prior)
+        return D.MultipleLikelihoodPosterior(*dens), x_true, refuses
     k, res = core.outcome(build)
     if k != "value":
         ctx.refused("build", res); ctx.count("build_refused"); return
